@@ -291,7 +291,7 @@ func c09Drain(c *c09Case, rr parquet.RowReader, limit int) ([]c09Row, [][2]int, 
 }
 
 // run one case on the real library, returns the emitted rows
-func c09Run(c *c09Case) (out []c09Row, kind string, calls [][2]int, err error) {
+func c09Run(c *c09Case) (out []c09Row, kind string, calls [][2]int, plan string, err error) {
 	defer func() {
 		if p := recover(); p != nil {
 			err = fmt.Errorf("panic: %v", p)
@@ -304,7 +304,7 @@ func c09Run(c *c09Case) (out []c09Row, kind string, calls [][2]int, err error) {
 		asFile := c.Storage == "file" || (c.Storage == "mixed" && i%2 == 1)
 		rg, e := c09RowGroup(c, schema, in, asFile)
 		if e != nil {
-			return nil, "", nil, fmt.Errorf("building input %d: %w", i, e)
+			return nil, "", nil, "", fmt.Errorf("building input %d: %w", i, e)
 		}
 		rgs[i] = rg
 		total += len(in)
@@ -323,7 +323,7 @@ func c09Run(c *c09Case) (out []c09Row, kind string, calls [][2]int, err error) {
 			rr = parquet.DedupeRowReader(rr, cmp)
 		}
 		out, calls, err = c09Drain(c, rr, total)
-		return out, "readers", calls, err
+		return out, "readers", calls, "", err
 	}
 	opts := []parquet.RowGroupOption{schema}
 	if c.MCols > 0 || c.Dedupe {
@@ -335,36 +335,44 @@ func c09Run(c *c09Case) (out []c09Row, kind string, calls [][2]int, err error) {
 	}
 	merged, e := parquet.MergeRowGroups(rgs, opts...)
 	if e != nil {
-		return nil, "", nil, fmt.Errorf("MergeRowGroups: %w", e)
+		return nil, "", nil, "", fmt.Errorf("MergeRowGroups: %w", e)
 	}
 	kind = parquet.VerifMergeKind(merged)
+	var segs []string
+	for _, sg := range parquet.VerifMergeSegments(merged) {
+		segs = append(segs, fmt.Sprintf("%d:%d", sg[0], sg[1]))
+	}
+	plan = "-"
+	if len(segs) > 0 {
+		plan = strings.Join(segs, ",")
+	}
 	switch c.Path {
 	case "rows":
 		rows := merged.Rows()
 		defer rows.Close()
 		out, calls, err = c09Drain(c, rows, total)
-		return out, kind, calls, err
+		return out, kind, calls, plan, err
 	case "write", "copyrows":
 		var file bytes.Buffer
 		w := parquet.NewWriter(&file, schema, parquet.PageBufferSize(max(c.PageBuf, 64)))
 		if c.Path == "write" {
 			if _, e := w.WriteRowGroup(merged); e != nil {
-				return nil, kind, nil, fmt.Errorf("WriteRowGroup: %w", e)
+				return nil, kind, nil, plan, fmt.Errorf("WriteRowGroup: %w", e)
 			}
 		} else {
 			rows := merged.Rows()
 			_, e := parquet.CopyRows(w, rows)
 			rows.Close()
 			if e != nil {
-				return nil, kind, nil, fmt.Errorf("CopyRows: %w", e)
+				return nil, kind, nil, plan, fmt.Errorf("CopyRows: %w", e)
 			}
 		}
 		if e := w.Close(); e != nil {
-			return nil, kind, nil, fmt.Errorf("Close: %w", e)
+			return nil, kind, nil, plan, fmt.Errorf("Close: %w", e)
 		}
 		f, e := parquet.OpenFile(bytes.NewReader(file.Bytes()), int64(file.Len()))
 		if e != nil {
-			return nil, kind, nil, fmt.Errorf("OpenFile(output): %w", e)
+			return nil, kind, nil, plan, fmt.Errorf("OpenFile(output): %w", e)
 		}
 		for _, rg := range f.RowGroups() {
 			rows := rg.Rows()
@@ -373,12 +381,12 @@ func c09Run(c *c09Case) (out []c09Row, kind string, calls [][2]int, err error) {
 			out = append(out, o...)
 			calls = append(calls, cl...)
 			if e != nil {
-				return out, kind, calls, e
+				return out, kind, calls, plan, e
 			}
 		}
-		return out, kind, calls, nil
+		return out, kind, calls, plan, nil
 	}
-	return nil, kind, nil, fmt.Errorf("unknown path %q", c.Path)
+	return nil, kind, nil, plan, fmt.Errorf("unknown path %q", c.Path)
 }
 
 // ---------------------------------------------------------------- L1 oracle
@@ -469,7 +477,7 @@ func c09Oracle(c *c09Case, out []c09Row) (key, what string) {
 	return "", ""
 }
 
-func c09Check(ctx *core.Ctx, c *c09Case) {
+func c09Check(ctx *core.Ctx, c *c09Case, p *c09Pending) {
 	total, nonEmpty, nulls := 0, 0, false
 	for _, in := range c.Inputs {
 		total += len(in)
@@ -482,7 +490,7 @@ func c09Check(ctx *core.Ctx, c *c09Case) {
 	}
 	canon := c.canon()
 	ctx.Case(canon, nonEmpty >= 2)
-	out, kind, calls, err := c09Run(c)
+	out, kind, calls, plan, err := c09Run(c)
 	ctx.Hist("inputs", strconv.Itoa(len(c.Inputs)))
 	ctx.Hist("path", c.Path)
 	ctx.Hist("storage", c.Storage)
@@ -504,6 +512,25 @@ func c09Check(ctx *core.Ctx, c *c09Case) {
 		return map[string]any{"case": cs, "plan": kind, "output": strings.Join(o, " "), "calls": fmt.Sprint(calls[:min(len(calls), 50)])}
 	}
 	sig := fmt.Sprintf(" path=%s", c.Path)
+	// L2: the plan (segments of row groups) against the Lean mirror of overlappingRowGroups;
+	// one key column, single-page row groups (Buffers), no nulls, no dedupe wrappers
+	if p != nil && err == nil && c.Storage == "buffer" && len(c.Cols) == 1 && !nulls && !c.Dedupe && c.Path != "readers" && len(c.Inputs) > 0 {
+		req := "merge.segments " + c09Lists(c.Inputs, func(r c09Row) string {
+			if c.Cols[0].Desc {
+				return strconv.FormatInt(-r.K[0], 10)
+			}
+			return strconv.FormatInt(r.K[0], 10)
+		})
+		want := "ok " + plan
+		ctx.Hist("l2-plan-segments", c09Bucket(strings.Count(plan, ",")+1))
+		p.reqs = append(p.reqs, req)
+		p.pend = append(p.pend, func(ans string) {
+			if ans != want {
+				ctx.Fail("L2", "segments-mirror", "segments chosen by MergeRowGroups differ from the Lean mirror of overlappingRowGroups", map[string]any{
+					"case": canon, "request": req, "impl": want, "model": ans})
+			}
+		})
+	}
 	if err != nil {
 		ctx.Fail("L1", "error "+c09ErrClass(err)+sig, "merge fails: "+err.Error(), detail())
 		return
@@ -960,6 +987,9 @@ func c09GenL2(r *rand.Rand) *c09L2Case {
 	if r.Intn(20) == 0 {
 		c.batches = append(c.batches, 0)
 	}
+	if k == 1 {
+		c.eofLast = false // mergeRowReaders returns the single reader itself: its io.EOF timing is the source's
+	}
 	return c
 }
 
@@ -1085,7 +1115,7 @@ func RunC09(ctx *core.Ctx) {
 			Inputs: [][]c09Row{{{K: [2]int64{10}}, {Null: [2]bool{true}, Seq: 1}}, {{K: [2]int64{17}, Inp: 1}, {K: [2]int64{17}, Inp: 1, Seq: 1}, {K: [2]int64{18}, Inp: 1, Seq: 2}}}},
 	}
 	for _, c := range fixed {
-		c09Check(ctx, c)
+		c09Check(ctx, c, nil)
 	}
 
 	workers := 14
@@ -1097,19 +1127,21 @@ func RunC09(ctx *core.Ctx) {
 		wg.Add(1)
 		go func(w int) {
 			defer wg.Done()
+			d := ctx.Driver()
+			p := &c09Pending{}
 			r := ctx.Rand(fmt.Sprintf("c09-l1-%d", w))
 			for i := w; i < nL1; i += workers {
 				c := c09GenCase(r)
 				if i < 3 {
 					ctx.Sample(map[string]any{"case": c.canon()[:min(len(c.canon()), 600)]})
 				}
-				c09Check(ctx, c)
+				c09Check(ctx, c, p)
+				p.flush(ctx, d, false)
 			}
 			for i := w; i < nRefine; i += workers {
-				c09Check(ctx, c09GenRefineCase(r))
+				c09Check(ctx, c09GenRefineCase(r), p)
 			}
-			d := ctx.Driver()
-			p := &c09Pending{}
+			p.flush(ctx, d, true)
 			r2 := ctx.Rand(fmt.Sprintf("c09-l2-%d", w))
 			for i := w; i < nL2; i += workers {
 				c := c09GenL2(r2)
@@ -1170,7 +1202,7 @@ func c09Exhaustive(ctx *core.Ctx, workers int) {
 							}
 							oc.Inputs = append(oc.Inputs, in)
 						}
-						c09Check(ctx, oc)
+						c09Check(ctx, oc, p)
 					}
 					p.flush(ctx, d, false)
 				}
